@@ -701,6 +701,9 @@ func (c *check) runPart(a *agg, share float64, base uint64) partOutcome {
 		out.trouble += fmt.Sprintf("\n[%s] no plan was executed", c.spec.Harness)
 	}
 	out.detRe, out.detSame = detRe, detSame
+	if len(detDiff) > 0 {
+		fmt.Fprintf(os.Stderr, "[%s] determinism self-test: %d/%d identical; differing: %v\n", c.spec.Harness, detSame, detRe, detDiff)
+	}
 	if detRe > 0 {
 		thr := c.spec.DetThreshold
 		if thr == 0 {
